@@ -41,7 +41,7 @@ def _message(rng, module, sd, params, kind):
 def scenario_writes(rng, module, cfg, hostile=False):
     st = rng.choice(module.mains)
     sd = module.struct(st)
-    params = scen.draw_params(rng, sd)
+    params = scen.draw_params(rng, sd, module)
     kinds = ["valid", "valid", "valid", "truncated", "flipped", "broken", "oversized"]
     if hostile:
         kinds += ["garbage", "garbage", "truncated"]
@@ -81,7 +81,7 @@ def scenario_writes(rng, module, cfg, hostile=False):
 def scenario_copy(rng, module, cfg, hostile=False):
     st = rng.choice(module.mains)
     sd = module.struct(st)
-    params = scen.draw_params(rng, sd)
+    params = scen.draw_params(rng, sd, module)
     kinds = ["valid", "valid", "valid", "broken", "truncated", "flipped"] + (["garbage"] * 2 if hostile else [])
     akind = rng.choice(kinds)
     a, a_valid = _message(rng, module, sd, params, akind)
@@ -151,7 +151,7 @@ def _has_array(module, sd, seen=None):
 def scenario_text(rng, module, cfg, hostile=False):
     st = rng.choice(module.mains)
     sd = module.struct(st)
-    params = scen.draw_params(rng, sd)
+    params = scen.draw_params(rng, sd, module)
     kind = rng.choice(["valid", "valid", "valid", "valid", "broken"] + (["garbage", "truncated", "flipped"] if hostile else []))
     msg, valid = _message(rng, module, sd, params, kind)
     ops = [{"op": "reset"}, {"op": "alloc", "arena": "a", "hex": msg.hex(), "base": rng.choice([0, 1]), "content": kind}]
